@@ -33,6 +33,93 @@ def strategy(tier):
     })
 
 
+def extra_cases(tier, seed, shard, nshards):
+    cs = [{"engine": "R", "kind": k, "sendfile": sf} for k in wenv.KINDS for sf in (None, False)]
+    for i, c in enumerate(cs):
+        if (i + seed) % nshards == shard:
+            yield c
+
+
+EXHAUSTIVE_NOTE = ("engine R slice: for every worker class x sendfile on/off one real server answers the full grid offset {0,1,4096,69990,"
+                   "70000} x Content-Length {none, exact, 10} x HTTP {1.1,1.0} x {GET,HEAD} through wsgi.file_wrapper over a real file (kernel "
+                   "sendfile path), plus keep-alive pairs on one connection")
+
+
+def run_real(case):
+    """real sockets: the kernel sendfile path that the fake socket only emulates"""
+    import itertools
+    import os
+    from vlib import renv
+    kind = case["kind"]
+    srv = renv.Server(kind=kind, workers=1, bind="tcp", graceful=2, timeout=30, threads=2 if kind == "gthread" else None, keepalive=5,
+                      extra=["--no-sendfile"] if case["sendfile"] is False else [])
+    vio = []
+    n = 0
+    try:
+        with open(os.path.join(srv.scratch, "data.bin"), "wb") as f:
+            f.write(wenv.FILE_BYTES)
+        os.chmod(os.path.join(srv.scratch, "data.bin"), 0o644)
+        if not srv.wait_ready():
+            return Outcome([], False, ["engine:R", "inconclusive:not-ready"])
+        for off, clm, ver, method in itertools.product([0, 1, 4096, 69990, 70000], ["none", "exact", "10"], ["1.1", "1.0"], ["GET", "HEAD"]):
+            total = 70000 - off
+            cl = None if clm == "none" else (total if clm == "exact" else min(10, total))
+            path = "/file/%d/%s" % (off, "none" if cl is None else cl)
+            r, data, err = srv.request(path, method=method, version=ver)
+            n += 1
+            exp = b"" if method == "HEAD" else (wenv.FILE_BYTES[off:] if cl is None else wenv.FILE_BYTES[off:off + cl])
+            want_framing = "none" if method == "HEAD" else ("cl" if cl is not None else ("chunked" if ver == "1.1" else "close"))
+            bad = None
+            if r is None or not r.ok or r.errors or not r.complete:
+                bad = "malformed-or-incomplete"
+            elif r.framing != want_framing:
+                bad = "framing-%s-expected-%s" % (r.framing, want_framing)
+            elif r.framing == "chunked" and r.terminators != 1:
+                bad = "terminating-chunks:%d" % r.terminators
+            elif r.body != exp:
+                bad = "body-differs:file:%s" % r.framing
+            if bad:
+                vio.append(Violation("real-socket-file-response", "C02/real:" + bad,
+                                     observed={"path": path, "method": method, "version": ver, "kind": kind, "sendfile": case["sendfile"],
+                                               "got_len": len(r.body) if r is not None else None, "head": data[:200], "error": err},
+                                     expected={"len": len(exp), "framing": want_framing}))
+                break
+        if not vio and kind != "sync":
+            # two keep-alive requests on one connection: the second response starts exactly where the first ends
+            # (the second request is sent after the first response arrived: pipelining both in one segment runs into the
+            # open gthread finding C13/...request-buffered-in-parser, which is not C02's subject)
+            c = srv.connect()
+            c.settimeout(8)
+            c.sendall(b"GET /file/69990/none HTTP/1.1\r\nHost: x\r\n\r\n")
+            data = b""
+            while True:
+                r1 = ref_response.parse_response(data, 0, "GET") if data else None
+                if r1 is not None and r1.ok and r1.complete:
+                    break
+                try:
+                    d = c.recv(65536)
+                except OSError:
+                    d = b""
+                if not d:
+                    break
+                data += d
+            c.sendall(b"GET /file/0/10 HTTP/1.1\r\nHost: x\r\nConnection: close\r\n\r\n")
+            more, err = renv.read_all(c, 8)
+            data += more
+            c.close()
+            r1 = ref_response.parse_response(data, 0, "GET")
+            r2 = ref_response.parse_response(data, r1.end, "GET") if r1 is not None and r1.end else None
+            n += 2
+            if not (r1 is not None and r1.ok and r1.complete and r1.body == wenv.FILE_BYTES[69990:] and r2 is not None and r2.ok and r2.complete
+                    and r2.body == wenv.FILE_BYTES[:10] and r2.end == len(data)):
+                vio.append(Violation("real-socket-file-response", "C02/real:keep-alive-pair-misframed",
+                                     observed={"wire": data[:400], "kind": kind}, expected="two complete responses, nothing else"))
+        return Outcome(vio, True, ["engine:R", "kind:" + kind, "sendfile:%s" % case["sendfile"]], key="R|%s|%s" % (kind, case["sendfile"]),
+                       sample={"case": case, "requests": n}, counts={"real-requests": n})
+    finally:
+        srv.cleanup()
+
+
 def asked_close(req):
     toks = [t.strip().lower() for t in (req.get("connection") or "").split(",")]
     if "close" in toks:
@@ -43,6 +130,8 @@ def asked_close(req):
 
 
 def run_case(case):
+    if case.get("engine") == "R":
+        return run_real(case)
     kind = case["kind"]
     cfg = wenv.make_cfg(keepalive=case["keepalive"], sendfile=case["sendfile"], worker_connections=10, threads=2,
                         accesslog=None)
